@@ -4,7 +4,7 @@ import importlib
 _MODULES = ('parts_core', 'parts_queries', 'parts_io', 'parts_paths', 'parts_stats_api')
 
 
-def __getattr__(name):
+def _lookup(name):
     for m in _MODULES:
         try:
             mod = importlib.import_module('bounded.' + m)
@@ -13,6 +13,45 @@ def __getattr__(name):
         if hasattr(mod, name):
             return getattr(mod, name)
     raise AttributeError(name)
+
+
+def _raised_by_repo(tb):
+    """is the innermost frame of the traceback code of the dynetx package under test (not harness code)?"""
+    import os
+    import dynetx
+    root = os.path.dirname(os.path.abspath(dynetx.__file__)) + os.sep
+    while tb.tb_next is not None:
+        tb = tb.tb_next
+    return os.path.abspath(tb.tb_frame.f_code.co_filename).startswith(root)
+
+
+def __getattr__(name):
+    fn = _lookup(name)
+    if not (callable(fn) and len(name) > 4 and name[0] == 'c' and name[1:3].isdigit() and name[3] == '_'):
+        return fn
+
+    def guarded(tier, seed, *a, **kw):
+        """an exception that the code under test raises while the part queries a graph built by an accepted history is a
+        violation of the part's property (the queries are total on such graphs); an exception of the harness is a crash"""
+        import sys
+        import traceback
+        from bounded import core
+        core.CURRENT = None
+        try:
+            return fn(tier, seed, *a, **kw)
+        except Exception:
+            et, ev, tb = sys.exc_info()
+            if not _raised_by_repo(tb):
+                raise
+            cur = core.CURRENT or (None, None, None)
+            return {'coverage': {'evaluations': 1, 'distinct_nontrivial': 1, 'rule': 'aborted by an exception of the code under test',
+                                 'samples': [{}], 'exhaustive': False, 'bound': '', 'label': 'bounded stand-in (never counted as proved)'},
+                    'violations': [{'check': 'C%s.raises_on_accepted_history' % name[1:3], 'class': cur[0], 'edge_removal': cur[1],
+                                    'history': core._j(cur[2]) if cur[2] is not None else None,
+                                    'detail': '%s: %s raised by the code under test while the harness queried a graph built by an accepted '
+                                              'history\n%s' % (et.__name__, ev, ''.join(traceback.format_tb(tb)[-3:]))}]}
+    guarded.__name__ = name
+    return guarded
 
 
 def replay(v):
